@@ -184,3 +184,18 @@ Example C01_root_operand_example :
   List.length (nav_allf pf doc [xs; FQ [[BRN no; BE a]]] ([], doc)) = 3%nat /\
   nav_allf pf doc [xs; FQ [[BCR a OGt no]]] ([], doc) = [].
 Proof. cbv zeta. repeat split; vm_compute; reflexivity. Qed.
+
+(* @ inner == $ steps: deep equality with the one value the `$` path reaches; when it reaches nothing, the both-absent rule *)
+Example C01_path_equality_example :
+  let pf := fun s : string => @None num in
+  let doc := VObj [("want", VArr [VNum (num_of_Z 1)]); ("xs", VArr [VObj [("a", VArr [VNum (num_of_Z 1)])]; VObj [("a", VNum (num_of_Z 1))]; VObj [("b", VNull)]])]%string in
+  let a := [RPlain (SDot [97%N])] in let c := [RPlain (SDot [99%N])] in let want := [RPlain (SDot [119%N; 97%N; 110%N; 116%N])] in let no := [RPlain (SDot [110%N])] in
+  let xs := FS (RPlain (SDot [120%N; 115%N])) in
+  fchain_path [xs; FQ [[BPQ a false want]]] = [36; 46; 120; 115; 91; 63; 40; 64; 46; 97; 61; 61; 36; 46; 119; 97; 110; 116; 41; 93]%N /\
+  forallb fstep_ok [xs; FQ [[BPQ a false want]]] = true /\
+  map snd (nav_allf pf doc [xs; FQ [[BPQ a false want]]] ([], doc)) = [VObj [("a", VArr [VNum (num_of_Z 1)])]]%string /\
+  List.length (nav_allf pf doc [xs; FQ [[BPQ a true want]]] ([], doc)) = 2%nat /\
+  nav_allf pf doc [xs; FQ [[BPQ a false no]]] ([], doc) = [] /\
+  List.length (nav_allf pf doc [xs; FQ [[BPQ c false no]]] ([], doc)) = 3%nat /\
+  nav_allf pf doc [xs; FQ [[BPQ c true no]]] ([], doc) = [].
+Proof. cbv zeta. repeat split; vm_compute; reflexivity. Qed.
